@@ -86,13 +86,17 @@ def replay(p: Path) -> Dict[object, AV]:
             res = e.d.get('result')
             if res is None:
                 continue
-            if c in ('numpy.ndarray', 'numpy.zeros', 'numpy.ones', 'numpy.empty'):
+            if c in ('numpy.ndarray', 'numpy.zeros', 'numpy.ones', 'numpy.empty', 'numpy.full'):
                 shp = e.d['kwargs'].get('shape', e.d['args'][0] if e.d['args'] else None)
                 av = AV(shape_len(shp))
                 if c == 'numpy.zeros':
                     av.fill = RF.const(0)
                 if c == 'numpy.ones':
                     av.fill = RF.const(1)
+                if c == 'numpy.full':
+                    fv = e.d['kwargs'].get('fill_value', e.d['args'][1] if len(e.d['args']) > 1 else None)
+                    if isinstance(fv, RF):
+                        av.fill = fv
                 arrays[key_of(res)] = av
         elif e.kind == 'call' and e.d['name'] == 'fill' and e.d.get('recv') is not None:
             k = key_of(e.d['recv'])
@@ -366,31 +370,97 @@ def r18_4(ctx: Ctx):
     fn = g.methods.get('GKLS_arg_generate')
     if fn is None:
         raise AnalysisError('GKLSFunction.GKLS_arg_generate vanished')
+    selfn = fn.param_names[0]
+    # single-definition locals are expanded (globalMinimizer = minima.local_min[1]; minima = self.GKLS_minima)
+    defs: Dict[str, list] = {}
+    for n in ast.walk(fn.node):
+        if isinstance(n, ast.Assign) and len(n.targets) == 1 and isinstance(n.targets[0], ast.Name):
+            defs.setdefault(n.targets[0].id, []).append(n.value)
+        elif isinstance(n, (ast.AugAssign, ast.AnnAssign, ast.For)) and isinstance(n.target, ast.Name):
+            defs.setdefault(n.target.id, []).append(None)
 
-    def is_minimiser_store(t) -> bool:
-        # self.GKLS_minima.local_min[1][...]
+    def expand(e, depth=0):
+        """Replace single-definition alias names by what they name (attribute / subscript chains only)."""
+        if depth > 4:
+            return e
+        if isinstance(e, ast.Name) and len(defs.get(e.id, [])) == 1 and defs[e.id][0] is not None and \
+                isinstance(defs[e.id][0], (ast.Attribute, ast.Subscript, ast.Name)):
+            return expand(defs[e.id][0], depth + 1)
+        if isinstance(e, ast.Attribute):
+            return ast.Attribute(value=expand(e.value, depth), attr=e.attr, ctx=ast.Load())
+        if isinstance(e, ast.Subscript):
+            return ast.Subscript(value=expand(e.value, depth), slice=e.slice, ctx=ast.Load())
+        return e
+
+    def is_minimiser(t) -> bool:
+        # <...>.local_min[1][...]
+        t = expand(t)
         return isinstance(t, ast.Subscript) and isinstance(t.value, ast.Subscript) and \
             isinstance(t.value.value, ast.Attribute) and t.value.value.attr == 'local_min' and \
             isinstance(t.value.slice, ast.Constant) and t.value.slice.value == 1
 
-    def shape(test) -> frozenset:
-        out = set()
-        for c in ast.walk(test):
-            if isinstance(c, ast.Compare) and len(c.ops) == 1:
-                names = {a.attr for a in ast.walk(c.comparators[0]) if isinstance(a, ast.Attribute)} | \
-                        {a.attr for a in ast.walk(c.left) if isinstance(a, ast.Attribute)}
+    def inline_helper(test):
+        """self._helper(args) whose body is `return <expr>`: the expression with the arguments substituted."""
+        if isinstance(test, ast.Call) and isinstance(test.func, ast.Attribute) and isinstance(test.func.value, ast.Name) \
+                and test.func.value.id == selfn:
+            h = g.lookup(test.func.attr)
+            if h is not None and not test.keywords:
+                body = [st for st in h.node.body if not (isinstance(st, ast.Expr) and isinstance(st.value, ast.Constant))]
+                if len(body) == 1 and isinstance(body[0], ast.Return) and body[0].value is not None:
+                    names = h.param_names[1:] if not h.is_static else h.param_names
+                    if len(names) >= len(test.args):
+                        mp = dict(zip(names, test.args))
+
+                        class Sub(ast.NodeTransformer):
+                            def visit_Name(self, node):
+                                return mp.get(node.id, node)
+                        import copy
+                        return Sub().visit(copy.deepcopy(body[0].value))
+        return test
+
+    def atoms(test, neg=False):
+        """Disjunctive reading of the mirror condition: ('or'|'and'|'single', [(op, side)])."""
+        test = inline_helper(test)
+        if isinstance(test, ast.UnaryOp) and isinstance(test.op, ast.Not):
+            return atoms(test.operand, not neg)
+        if isinstance(test, ast.BoolOp):
+            parts = [atoms(v, neg) for v in test.values]
+            join = 'or' if isinstance(test.op, ast.Or) else 'and'
+            if neg:
+                join = 'and' if join == 'or' else 'or'
+            out = []
+            for j_, a_ in parts:
+                out += a_
+            return join, out
+        if isinstance(test, ast.Compare):
+            # a < v < b  ==  (a < v) and (v < b)
+            items = []
+            left = test.left
+            for op, right in zip(test.ops, test.comparators):
+                items.append((left, op, right))
+                left = right
+            out = []
+            for l_, op, r_ in items:
+                opn = type(op).__name__
+                if neg:
+                    opn = {'Gt': 'LtE', 'Lt': 'GtE', 'GtE': 'Lt', 'LtE': 'Gt'}.get(opn, opn)
+                names = {a.attr for a in ast.walk(l_) if isinstance(a, ast.Attribute)} | \
+                        {a.attr for a in ast.walk(r_) if isinstance(a, ast.Attribute)}
                 side = 'right' if any('right' in x for x in names) else ('left' if any('left' in x for x in names) else '?')
-                op = type(c.ops[0]).__name__
-                lhs_is_min = any(is_minimiser_store(x) for x in ast.walk(c.left))
+                lhs_is_min = any(is_minimiser(x) for x in ast.walk(l_) if isinstance(x, (ast.Subscript, ast.Name)))
                 if not lhs_is_min:
-                    op = {'Gt': 'Lt', 'Lt': 'Gt', 'GtE': 'LtE', 'LtE': 'GtE'}.get(op, op)
-                out.add((op.replace('E', ''), side))
-        joiner = 'or' if isinstance(test, ast.BoolOp) and isinstance(test.op, ast.Or) else \
-            ('and' if isinstance(test, ast.BoolOp) else 'single')
-        return frozenset(out | {('join', joiner)})
+                    opn = {'Gt': 'Lt', 'Lt': 'Gt', 'GtE': 'LtE', 'LtE': 'GtE'}.get(opn, opn)
+                out.append((opn.replace('E', ''), side))
+            join = 'single' if len(out) == 1 else ('or' if neg else 'and')
+            return join, out
+        return 'single', [('?', '?')]
+
+    def shape(test) -> frozenset:
+        join, ats = atoms(test)
+        return frozenset(set(ats) | {('join', join)})
     sib = []
     for n in ast.walk(fn.node):
-        if isinstance(n, ast.If) and any(isinstance(st, ast.Assign) and any(is_minimiser_store(t) for t in st.targets)
+        if isinstance(n, ast.If) and any(isinstance(st, ast.Assign) and any(is_minimiser(t) for t in st.targets)
                                          for st in n.body):
             sib.append((n, shape(n.test)))
     ctx.floor(rid, 'mirror guards of the global minimiser', len(sib), 3)
